@@ -269,9 +269,14 @@ def prove_registration(src_root, ex: Explorer):
         if site != 'register_response_future':
             # two callers waiting for the same message each own a future: the timeout or cancellation of one caller cancels ITS future
             # (C12.wait_for_*), which must not be the future another caller is waiting on
-            ctx.prove(f'C12.registration.{site}.own-future', f is not prior and lst.count(prior) == 1 and lst.count(f) == 1,
+            ctx.prove(f'C12.registration.{site}.own-future', f is not prior and sum(1 for x in lst if x is prior) == 1 and sum(1 for x in lst if x is f) == 1,
                       'a second identical request got the future of the first one: cancelling one caller cancels the other')
-            lst.remove(prior)
+            # the YOUNGER of two identical requests ends (timeout / cancellation): exactly IT leaves the registry, the older one stays
+            it.call(it.getattr(net, '_remove_response_future'), [f], {})
+            ctx.prove(f'C12.registration.{site}.removes-that-future', [x for x in lst if x is prior or x is f] == [prior] and any(x is prior for x in lst),
+                      'removing one of two identical pending requests took the other one out of the registry (it misses its answer)')
+            lst[:] = [x for x in lst if x is not prior and x is not f]
+            lst.append(f)
         cbs = f.ghost['future'].callbacks
         ok = lst.count(f) == 1 and len(cbs) == 1 and it.aio.yields == []
         if ok:
@@ -477,6 +482,37 @@ def scan_command_replies(src_root, ex: Explorer):
     ex.run(path, 'command-replies')
 
 
+def prove_place_in_queue_waiter(src_root, ex: Explorer):
+    """TransferManager.request_place_in_queue: the reply that answers it comes from that peer and names EXACTLY the remote path of the
+    transfer (a peer has several files with the same base name) - a scalar matcher, not a predicate on part of the path"""
+    def path(ctx: Ctx):
+        it = mk(src_root, ctx)
+        waits = []
+        # whatever is computed from the path beforehand (regular expressions, splitting) is of no interest here: abstract results
+        it.natives['re.split'] = Native('re.split', lambda it2, a, k: [Sym(ctx.fresh_str('piece'), 'str')])
+        rp = Sym(ctx.fresh_str('remote_path'), 'str')
+        reply = Stub('reply', filename=rp, place=3)
+
+        def create(it2, a, k):
+            waits.append(k if k else a)
+            return A.SimpleAwaitable(it2.aio, 'reply', lambda it3: (Opaque('conn'), reply))
+        net = Stub('network', send_peer_messages=Recorder('send_peer_messages', is_async=True),
+                   create_peer_response_future=Recorder('create_peer_response_future', fn=create))
+        t = new(it, 'transfer.model', 'Transfer', username='bob', remote_path=rp, place_in_queue=None)
+        mgr = new(it, 'transfer.manager', 'TransferManager', _network=net)
+        try:
+            run(it, it.getattr(mgr, 'request_place_in_queue'), t)
+        except PyRaise as pr:
+            ctx.fail('C12.negotiation.place-in-queue.exact-file', repr(pr.exc))
+            return
+        w = waits[0] if waits else {}
+        fields = w.get('fields') if isinstance(w, dict) else None
+        ctx.prove('C12.negotiation.place-in-queue.exact-file', len(waits) == 1 and isinstance(w, dict) and w.get('peer') == 'bob'
+                  and isinstance(fields, dict) and fields.get('filename') is rp,
+                  f'the place-in-queue reply is awaited with {w!r}')
+    ex.run(path, 'place-in-queue-waiter')
+
+
 def prove_delivery_relies(src_root, ex: Explorer):
     """"Completes with the FIRST incoming message that matches" presupposes that messages reach on_message_received in the order they
     arrived and one at a time: the reader loop awaits the callback of a message before it reads the next (C02.reader_loop.*), discharged
@@ -515,7 +551,7 @@ def prove_delivery_relies(src_root, ex: Explorer):
 
 
 def items(src_root, tier):
-    return [('delivery', None), ('commands', None), ('negotiation', None), ('matches', None), ('omr', None), ('wait', 'server'), ('wait', 'peer'), ('registration', None), ('execute', None)]
+    return [('place', None), ('delivery', None), ('commands', None), ('negotiation', None), ('matches', None), ('omr', None), ('wait', 'server'), ('wait', 'peer'), ('registration', None), ('execute', None)]
 
 
 def run_item(src_root, item, tier):
@@ -539,6 +575,8 @@ def run_item(src_root, item, tier):
             scan_command_replies(src_root, ex)
         elif kind == 'delivery':
             prove_delivery_relies(src_root, ex)
+        elif kind == 'place':
+            prove_place_in_queue_waiter(src_root, ex)
     except Unsupported as e:
         res.errors.append(f'{kind}:{arg}: unsupported: {e}')
     collect(res, ex)
